@@ -257,6 +257,9 @@ pub fn dump(grammar_text: &str, settings: &Settings) -> Result<String> {
             }
         }
     }
+    if let LexerType::Default = settings.lexer_type {
+        crate::generator::check_regexes(&grammar, settings.fancy_regex)?;
+    }
     let table = LRTable::new(&grammar, settings)?;
     let mut out = String::new();
     let _ = writeln!(
